@@ -487,3 +487,76 @@ contract(A + "AbstractAlignmentStorage.alignment_is_not_adjacent", {"self": "rec
                               "alignment": {"__rec__": "Aligned", "reference_start": s, "reference_end": s + rng.randint(1, 8)}}
                              for s in (rng.randint(0, 25) for _ in range(n))),
          canary="result == (self.region is not None)")
+
+
+# ---- which records the two per-region loops drop before a read is reported: the documented filters, enumerated ---------------------------------
+def _loop_filters(method):
+    """the `if <test>: ... continue` statements at the top level of the `for bam_index, alignment in alignment_storage` loop of the method,
+    in source order, as compiled test expressions (extracted from the real source on every run)"""
+    import ast
+    from pyvc import front
+    src = open(front.REPO + "/src/alignment_processor.py").read()
+    tree = ast.parse(src)
+    cls = [n for n in tree.body if isinstance(n, ast.ClassDef) and n.name == "AlignmentCollector"][0]
+    fn = [n for n in cls.body if isinstance(n, ast.FunctionDef) and n.name == method][0]
+    loop = [n for n in ast.walk(fn) if isinstance(n, ast.For) and ast.unparse(n.iter) == "alignment_storage"]
+    if not loop:
+        raise front.Missing("loop over alignment_storage not found in " + method)
+    tests = []
+    for stmt in loop[0].body:
+        if isinstance(stmt, ast.If) and not stmt.orelse and isinstance(stmt.body[-1], ast.Continue):
+            tests.append((ast.unparse(stmt.test), compile(ast.Expression(stmt.test), "<%s filter>" % method, "eval")))
+    if not tests:
+        raise front.Missing("no filter statements found in " + method)
+    return tests
+
+
+@finite("C05.read_filters", ["C05"], note="the `if ...: continue` filters of AlignmentCollector.process_genic / process_intergenic, extracted from the "
+        "source and evaluated on every combination of record flags, MAPQ, exon count, assignment type and filter options: a record is dropped "
+        "exactly by the documented filters (unmapped, supplementary, secondary under --no_secondary, --min_mapq, inconsistent assignments below "
+        "--inconsistent_mapq_cutoff, 1-2-exon alignments of gene-free regions that are secondary or below --simple_alignments_mapq_cutoff); a "
+        "consistent assignment (unique, unique_minor_difference, ambiguous) is never dropped for its MAPQ")
+def c05_read_filters(tier, rng):
+    import itertools, types
+    ia = native.repo_import("src/isoform_assignment.py")
+    T = ia.ReadAssignmentType
+    consistent = {T.unique, T.unique_minor_difference, T.ambiguous}
+    inconsistent = {T.inconsistent, T.inconsistent_non_intronic, T.inconsistent_ambiguous}
+    obl = dis = 0
+    viol = []
+    for method in ("process_genic", "process_intergenic"):
+        tests = _loop_filters(method)
+        types_ = list(T) if method == "process_genic" else [T.intergenic]
+        for unmapped, suppl, secondary, mapq, nex, ty, no_sec, min_mapq in itertools.product(
+                (False, True), (False, True), (False, True), (0, 1, 4, 5, 6, 60), (1, 2, 3), types_, (False, True), (None, 10)):
+            obl += 1
+            aln = types.SimpleNamespace(reference_id=-1 if unmapped and mapq == 0 else 0, is_unmapped=unmapped, is_supplementary=suppl, is_secondary=secondary,
+                                        mapping_quality=mapq, query_name="r")
+            params = types.SimpleNamespace(no_secondary=no_sec, min_mapq=min_mapq, inconsistent_mapq_cutoff=5, simple_alignments_mapq_cutoff=1)
+            env = {"alignment": aln, "self": types.SimpleNamespace(params=params), "ReadAssignmentType": T,
+                   "alignment_info": types.SimpleNamespace(read_exons=[(10 * i + 1, 10 * i + 5) for i in range(nex)]),
+                   "read_assignment": types.SimpleNamespace(assignment_type=ty), "len": len}
+            try:
+                fired = [src for src, code in tests if eval(code, env)]
+            except Exception as e:
+                viol.append({"obligation": "C05.read_filters.%s" % method, "inputs": None, "observed": "filter not evaluable: %r" % e,
+                             "required": "evaluable", "undecided": True})
+                break
+            dropped = bool(fired)
+            basic = unmapped or suppl or (secondary and no_sec) or (min_mapq is not None and mapq < min_mapq)
+            if method == "process_genic":
+                must_drop = basic or (ty in inconsistent and mapq < 5)
+                may_drop = must_drop or (ty not in consistent and mapq < 5)   # unassigned types: not documented either way
+            else:
+                must_drop = may_drop = basic or (nex <= 2 and (secondary or mapq < 1))
+            if (must_drop and not dropped) or (dropped and not may_drop):
+                if len(viol) < 5:
+                    viol.append({"obligation": "C05.read_filters.%s" % method,
+                                 "inputs": {"method": method, "unmapped": unmapped, "supplementary": suppl, "secondary": secondary, "mapq": mapq,
+                                            "exons": nex, "assignment_type": ty.name, "no_secondary": no_sec, "min_mapq": min_mapq},
+                                 "observed": "dropped=%s by %s" % (dropped, fired), "required": "dropped exactly by the documented filters (must=%s)" % must_drop})
+            else:
+                dis += 1
+    return {"obligations": obl, "discharged": dis, "violations": viol, "cases": obl, "exhaustive": True,
+            "bound": "2 loops x flags x MAPQ {0,1,4,5,6,60} x exons {1,2,3} x all assignment types x {--no_secondary} x {--min_mapq}",
+            "samples": [{"method": "process_genic", "assignment_type": "ambiguous", "mapq": 0, "dropped": False}]}
